@@ -156,6 +156,10 @@ impl Inst {
     }
 
     pub fn from_json(v: &Value) -> Inst {
+        // database ids are a permutation of the indices different from the identity (reversed), so
+        // that a confusion of the two index spaces stays in range and changes which object is meant
+        let nc = v["courses"].as_array().unwrap().len();
+        let np = v["participants"].as_array().unwrap().len();
         let courses = v["courses"]
             .as_array()
             .unwrap()
@@ -163,7 +167,7 @@ impl Inst {
             .enumerate()
             .map(|(i, c)| CourseDump {
                 index: i,
-                dbid: i,
+                dbid: nc - 1 - i,
                 name: c["name"].as_str().unwrap_or("c").to_string(),
                 num_min: c["num_min"].as_u64().unwrap() as usize,
                 num_max: c["num_max"].as_u64().unwrap() as usize,
@@ -184,7 +188,7 @@ impl Inst {
             .enumerate()
             .map(|(i, p)| ParticipantDump {
                 index: i,
-                dbid: i,
+                dbid: np - 1 - i,
                 name: p["name"].as_str().unwrap_or("p").to_string(),
                 choices: p["choices"]
                     .as_array()
